@@ -563,9 +563,9 @@ Qed.
 (* C02 / C09, termination: the measure of MSTerm decreases along the extracted run, so the schedule is exhausted after at
    most 6 * TC N S + 6 requests (and stays so) *)
 Definition muS (sch : sched) : Z := match ob sch with OMulti _ s _ _ => MSTerm.mu (Inst.TC tj) N S_ (toP s) | _ => 0 end.
-Lemma muS_nonneg sch m : J sch m -> 0 <= muS sch.
+Lemma muS_nonneg sch m : J sch m -> is_exhausted sch = false -> 0 <= muS sch.
 Proof.
-  intros HJ. assert (H : forall s stt, 0 <= muS (msched s stt)).
+  intros HJ _. assert (H : forall s stt, 0 <= muS (msched s stt)).
   { intros s stt. unfold muS, msched. cbn [ob]. unfold MSTerm.mu.
     pose proof (MSTerm.Phi_nonneg (Inst.TC tj) (Inst.TC_nonneg tj) N S_ (toP s)).
     assert (0 <= MSTerm.rank (MSPot.pcv (toP s))) by (destruct (MSPot.pcv (toP s)); cbn; lia). lia. }
